@@ -490,10 +490,11 @@ def build(op, example, start=NO, with_state=False, raw=False):
 
 
 class Trace(object):
-    __slots__ = ('outs', 'errs', 'build_error')
+    __slots__ = ('outs', 'errs', 'build_error', 'raw')
 
     def __init__(self):
         self.outs, self.errs, self.build_error = [], [], None
+        self.raw = []       # the very objects that were emitted (not copies), per batch
 
 
 def feed_of(op, batch):
@@ -516,8 +517,12 @@ def run_pipeline(op, example, batches, start=NO, with_state=False, raw=False, sn
             except Exception as e:                     # noqa: BLE001 -- the monitor records it
                 tr.build_error = e
                 return tr
-            L = []
-            sink = out.sink((lambda v: L.append(copy.deepcopy(v))) if snapshot else L.append)
+            L, RAW = [], []
+
+            def keep(v):
+                RAW.append(v)
+                L.append(copy.deepcopy(v) if snapshot else v)
+            sink = out.sink(keep)
             for b in batches:
                 n0 = len(L)
                 try:
@@ -526,6 +531,7 @@ def run_pipeline(op, example, batches, start=NO, with_state=False, raw=False, sn
                 except Exception as e:                 # noqa: BLE001
                     tr.errs.append(e)
                 tr.outs.append(L[n0:])
+                tr.raw.append(RAW[n0:])
     finally:
         lg.setLevel(old_level)
         if sink is not None:
